@@ -668,11 +668,11 @@ impl Stdfs {
                 // Copy over the file/link
                 fs::copy(src.path(), &dst_path)?;
 
-                // Optionally set new mode
-                if let Some(mode) = file_mode {
-                    fs::set_permissions(&dst_path, fs::Permissions::from_mode(mode))?;
-                } else if let Some(perms) = existing {
+                // A file that existed already keeps its permissions, a new one optionally gets the new mode
+                if let Some(perms) = existing {
                     fs::set_permissions(&dst_path, perms)?;
+                } else if let Some(mode) = file_mode {
+                    fs::set_permissions(&dst_path, fs::Permissions::from_mode(mode))?;
                 }
             }
         }
